@@ -25,7 +25,7 @@ type c12Case struct {
 func init() {
 	engine.Register(&engine.Check{
 		ID: "C12", Level: "exploration",
-		Rule: "every ordered pair of non-degenerate directed segments on the 5x5 (quick) / 6x6 (thorough) integer grid (all argument orders and directions, all 16 envelope-membership combinations of the collinear branch), each also scaled by 2^20 and translated by (2^20,-2^19); plus +-1 ulp perturbations of touching / T-junction / collinear configurations with non-trivial mantissas (classification only). Oracle: exact rational classification none/point/overlap; endpoint intersections returned bit-identical; proper crossings within 8 ulps of (|x|+|y|+scale); overlap endpoints exact; NonRobustLineIntersector.HasIntersection = exact on grid inputs. distinct_nontrivial = distinct pairs whose segments intersect or whose envelopes overlap",
+		Rule: "every ordered pair of non-degenerate directed segments on the 5x5 (quick) / 6x6 (thorough) integer grid (all argument orders and directions, all 16 envelope-membership combinations of the collinear branch), each also scaled by 2^20 and translated by (2^20,-2^19); plus a T-junction/touching lattice on rough integer coordinates up to 2^21 (an endpoint exactly on the other segment, all 8 role/direction variants; the endpoint must be returned bit-identical); plus +-1 ulp perturbations of touching / T-junction / collinear configurations with non-trivial mantissas (classification only). Oracle: exact rational classification none/point/overlap; endpoint intersections returned bit-identical; proper crossings within 8 ulps of (|x|+|y|+scale); overlap endpoints exact; NonRobustLineIntersector.HasIntersection = exact on grid inputs. distinct_nontrivial = distinct pairs whose segments intersect or whose envelopes overlap",
 		Run:    c12Run,
 		Replay: func(c *engine.Ctx, kind string, raw json.RawMessage) { c12Exec(c, decodeCase[c12Case](raw)) },
 		Assumptions: []string{"segments of non-zero length; grid inputs make every intermediate of the homogeneous-coordinate computation exact, so only the final division and re-translation round"},
@@ -163,6 +163,53 @@ func c12Run(c *engine.Ctx) {
 				}
 			}
 			c12Exec(c, c12Case{Pts: w, Exact: true})
+		}
+	})
+	// T-junction / touching lattice on rough integer coordinates up to ~2^21: an endpoint E of one
+	// segment lies exactly on the other (E = P + k*(dx,dy) on P..P+n*(dx,dy)); all 8 role/direction
+	// variants; the crossing arithmetic is inexact there, so the endpoint must be copied, not computed
+	type tj struct{ px, py, dx, dy, n, k, rx, ry float64 }
+	var tjs []tj
+	for _, p := range [][2]float64{{0, 0}, {12345, 67890}, {1<<20 - 1, 3}, {-99991, 524287}} {
+		for _, dx := range []float64{1, 3, 17, 369, 1000, 73800, 262143} {
+			for _, dy := range []float64{-777, -1, 0, 2, 5, 461, 27286, -131071} {
+				for _, n := range []float64{2, 3, 7, 10, 97, 1000} {
+					if n*math.Max(math.Abs(dx), math.Abs(dy)) > 1<<21 {
+						continue
+					}
+					for _, k := range []float64{0, 1, math.Floor(n / 2), n - 1, n} {
+						for _, r := range [][2]float64{{-dy - 1, dx + 2}, {1, 0}, {-250, 999}, {100000, -3}, {7, 7}, {831795, 654985}, {-524287, 1}} {
+							tjs = append(tjs, tj{p[0], p[1], dx, dy, n, k, r[0], r[1]})
+						}
+					}
+				}
+			}
+		}
+	}
+	c.Note("t_junction_configurations", len(tjs))
+	c.Parallel(len(tjs), func(i int) {
+		t := tjs[i]
+		P := [2]float64{t.px, t.py}
+		Q := [2]float64{t.px + t.n*t.dx, t.py + t.n*t.dy}
+		E := [2]float64{t.px + t.k*t.dx, t.py + t.k*t.dy}
+		R := [2]float64{E[0] + t.rx, E[1] + t.ry}
+		if R == E || P == Q {
+			return
+		}
+		for variant := 0; variant < 8; variant++ {
+			a1, a2, b1, b2 := P, Q, E, R
+			if variant&1 != 0 {
+				a1, a2 = a2, a1
+			}
+			if variant&2 != 0 {
+				b1, b2 = b2, b1
+			}
+			if variant&4 != 0 {
+				a1, a2, b1, b2 = b1, b2, a1, a2
+			}
+			v := []ref.F{ref.F(a1[0]), ref.F(a1[1]), ref.F(a2[0]), ref.F(a2[1]), ref.F(b1[0]), ref.F(b1[1]), ref.F(b2[0]), ref.F(b2[1])}
+			c.Count("t_junction_cases", 1)
+			c12Exec(c, c12Case{Pts: v})
 		}
 	})
 	// ulp lattice: collinear base (p0,p1,p2); configurations built from it, each ordinate of the
